@@ -63,7 +63,9 @@ def compare(kind, a, b, f):
 
 
 def describe(case):
-    bodies, main, consts = modular_texts(case, printer_for(case['kind']))
+    from ..modular import bound_const_decl
+    bodies, main, consts = modular_texts(case, printer_for(case['kind'], case.get('bound_const')))
+    consts = list(consts) + bound_const_decl(case)
     return 'kind %s, delivery %s, names declared: %s\nsub-specs: %s\nconstants: %s\nmain: out = %s\ninlined: out = %s\ndata: %s' % (
         case['kind'], case['delivery'], case['declare_names'], bodies, consts, main, printer_for(case['kind'])(from_json(case['formula'])),
         case.get('trace') or case.get('signals'))
